@@ -74,6 +74,11 @@ class PySnmpCodeGen(IntermediateCodeGen):
         'snmpEnableAuthTraps': 'snmpEnableAuthenTraps'  # RFC1158-MIB -> SNMPv2-MIB
     }
 
+    # intermediate representation keys holding free-form MIB texts which the
+    # template renders as triple-quoted / single-line Python literals
+    TEXT_KEYS = ('description', 'reference', 'organization', 'contactinfo')
+    ONE_LINE_TEXT_KEYS = ('units', 'displayhint', 'productrelease', 'lastupdated')
+
     # never compile these, they either:
     # - define MACROs (implementation supplies them)
     # - or carry conflicting OIDs (so that all IMPORT's of them will be rewritten)
@@ -122,6 +127,30 @@ class PySnmpCodeGen(IntermediateCodeGen):
                     dct[key] = tuple(int(x) for x in value.split('.'))
 
         translateOids(context)
+
+        # MIB texts are pasted into Python string literals by the template:
+        # keep backslashes literal and keep single-line literals on one line
+
+        def escapeTexts(dct):
+            for key, value in tuple(dct.items()):
+                if isinstance(value, dict):
+                    escapeTexts(value)
+
+                elif isinstance(value, list):
+                    for item in value:
+                        if isinstance(item, dict):
+                            escapeTexts(item)
+
+                elif (key in self.TEXT_KEYS + self.ONE_LINE_TEXT_KEYS and
+                        isinstance(value, (str, unicode))):
+                    value = value.replace('\\', '\\\\')
+
+                    if key in self.ONE_LINE_TEXT_KEYS:
+                        value = value.replace('\r', '\\r').replace('\n', '\\n')
+
+                    dct[key] = value
+
+        escapeTexts(context)
 
         # Translate SMI types into pysnmp class names
 
